@@ -95,6 +95,43 @@ Proof.
 Qed.
 Print Assumptions c20_state_conservation.
 
+(* Sent-storage failures (urun_sf F: the Store of the cuts with sequence numbers in F returns an
+   error; code as it is: counters advanced, sequence number used, buffer cleared and send hook
+   queued BEFORE Store is called).  A failing Store changes no state and no State() snapshot ... *)
+Theorem c20_store_failure_state : forall F ops s,
+  r_state (urun_sf F s ops) = r_state (urun s ops) /\ r_snaps (urun_sf F s ops) = r_snaps (urun s ops).
+Proof. intros F ops s. exact (urun_sf_state F ops s). Qed.
+Print Assumptions c20_store_failure_state.
+
+(* ... so a snapshot never invents or double-counts data whatever Store does: sent + buffered =
+   accepted in every reachable state (the points of a chunk whose Store failed are reported as
+   sent, never as sent AND buffered) ... *)
+Theorem c20_state_conservation_store_failure : forall F pol rev0 ops,
+  let r := urun_sf F (uinit pol rev0) ops in
+  u_total (r_state r) + buf_count (u_buf (r_state r)) = accepted_count ops (r_rets r).
+Proof. exact state_conservation_sf. Qed.
+Print Assumptions c20_state_conservation_store_failure.
+
+(* ... and the wire carries exactly the plain model's outputs minus the chunks whose Store failed *)
+Theorem c20_store_failure_wire : forall F ops s, r_outs (urun_sf F s ops) = sf_outs F (r_outs (urun s ops)).
+Proof. intros F ops s. exact (urun_sf_outs F ops s). Qed.
+Print Assumptions c20_store_failure_wire.
+
+(* FINDING (code as it is, reproduced on the real code by the h-upstream kind storefail): when the
+   Store of a cut made by the flush loop (size trigger or tick) fails, the error is swallowed and
+   the chunk is dropped: size policy 4, Store of cut 1 fails: both writes are accepted, the later
+   Flush returns nil with an empty buffer, TotalDataPoints = 2 and two sequence numbers are used,
+   but point 1 never reaches the wire.  (Not reachable with the built-in storages, whose Store
+   never fails; the storage is not injectable through the public API.) *)
+Theorem c20_store_failure_drops_chunk :
+  let ops := [Write 1 [(1,1,5)]; Write 1 [(2,2,1)]; Flush] in
+  let r := urun_sf [1] (uinit (PSize 4) []) ops in
+  r_rets r = [0; 0; 0] /\ u_buf (r_state r) = [] /\ u_total (r_state r) = 2 /\ u_seq (r_state r) = 2 /\
+  chunks_pts 1 (chunks_of (r_outs r)) = [(2,2,1)] /\
+  accepted_pts 1 ops (r_rets r) = [(1,1,5); (2,2,1)].
+Proof. exact store_failure_drops_chunk. Qed.
+Print Assumptions c20_store_failure_drops_chunk.
+
 (* no chunk is ever cut empty (no groups) *)
 Theorem c20_no_empty_chunk : forall pol rev0 ops c,
   In c (chunks_of (r_outs (urun (uinit pol rev0) ops))) -> snd (fst c) <> [].
@@ -123,3 +160,7 @@ Example c20_rt_example :
   rt_ok (mkRtCase 100 150 [12; 251] true [2] [2] [2]) = false /\
   upx_judge (RT (mkRtCase 100 150 [12; 251] true [2] [2] [2])) = 4.
 Proof. vm_compute. repeat split. Qed.
+
+(* the compact point-list notation of the big-backlog cases *)
+Example c20_prun_example : prun 7 3 9 1 = [(7,9,1); (8,9,1); (9,9,1)].
+Proof. reflexivity. Qed.
